@@ -9,7 +9,6 @@ import (
 	"io"
 	"os"
 	"os/exec"
-	"path/filepath"
 	"reflect"
 	"regexp"
 	"strings"
@@ -25,12 +24,6 @@ import (
 // This file is compiled only into the mapsim build, in which every
 // range-over-map of package stack asks the simulator for its order
 // (cmd/maprewrite + go build -overlay).
-
-// TreeFile is one file of the per-run directory tree (fixed environment).
-type TreeFile struct {
-	Path    string `json:"path"`
-	Content string `json:"content"`
-}
 
 // C06Extra is the environment and option part of a C06 case.
 type C06Extra struct {
@@ -185,25 +178,7 @@ func c06Compare(c *Case, ref, got *c06Result, refMode, mode string) []*Violation
 }
 
 func writeTree(ex *C06Extra) error {
-	if ex.Dir == "" {
-		return nil
-	}
-	if !strings.Contains(ex.Dir, "verif-c06") {
-		return fmt.Errorf("refusing to manage directory %q", ex.Dir)
-	}
-	os.RemoveAll(ex.Dir)
-	for _, f := range ex.Files {
-		if !strings.HasPrefix(f.Path, ex.Dir+"/") {
-			return fmt.Errorf("tree file %q outside %q", f.Path, ex.Dir)
-		}
-		if err := os.MkdirAll(filepath.Dir(f.Path), 0o755); err != nil {
-			return err
-		}
-		if err := os.WriteFile(f.Path, []byte(f.Content), 0o644); err != nil {
-			return err
-		}
-	}
-	return nil
+	return writeTreeFiles(ex.Dir, ex.Files)
 }
 
 // CheckC06 executes one case: every listed map order against the first.
@@ -234,6 +209,15 @@ func c06Check(c *Case, ex *C06Extra, cov *Cov) []*Violation {
 		if cov != nil {
 			cov.Evaluations++
 			cov.AddDigest(got.digest())
+			if got.snap != nil {
+				for _, g := range got.snap.Goroutines {
+					for _, cl := range g.Stack.Calls {
+						if len(cl.Args.Processed) > 0 {
+							cov.Probe("calls-augmented-from-sources")
+						}
+					}
+				}
+			}
 		}
 		if !bytes.Equal(got.shtml0, got.shtml) && !seen["C06.history"] {
 			seen["C06.history"] = true
@@ -274,61 +258,9 @@ func c06Check(c *Case, ex *C06Extra, cov *Cov) []*Violation {
 	return vs
 }
 
-const goSrc = "package p\n\nfunc worker(a int, b *int) {}\n\nfunc loop() {}\n"
-
 func genTree(r *core.Rng, dir string) (*C06Extra, []string) {
-	ex := &C06Extra{Dir: dir, GOROOT: dir + "/goroot", Guess: true}
-	add := func(p, content string) { ex.Files = append(ex.Files, TreeFile{Path: p, Content: content}) }
-	var remote []string
-	g1, g2 := dir+"/gopath1", dir+"/gopath2"
-	ex.GOPATHs = []string{g1, g2}
-	if r.Chance(0.5) {
-		ex.GOPATHs = []string{g2, g1}
-	}
-	add(ex.GOROOT+"/src/runtime/proc.go", goSrc)
-	remote = append(remote, "/remote/goroot/src/runtime/proc.go")
-	if r.Chance(0.7) {
-		// overlapping GOPATH roots: /r/src/a is itself a GOPATH nested in /r's src
-		add(g1+"/src/p/q.go", goSrc)
-		add(g2+"/src/m/n.go", goSrc)
-		remote = append(remote, "/r/src/a/src/p/q.go", "/r/src/m/n.go")
-	} else {
-		add(g1+"/src/p/q.go", goSrc)
-		remote = append(remote, "/r/src/p/q.go")
-	}
-	if r.Chance(0.5) {
-		// a remote GOPATH whose root is the remote GOROOT (code checked out under GOROOT/src)
-		add(g1+"/src/zz/w.go", goSrc)
-		remote = append(remote, "/remote/goroot/src/zz/w.go")
-	}
-	if r.Chance(0.5) {
-		add(g2+"/pkg/mod/github.com/x/y@v1.0.0/z.go", goSrc)
-		remote = append(remote, "/r2/pkg/mod/github.com/x/y@v1.0.0/z.go")
-	}
-	if r.Chance(0.7) {
-		// nested go.mod roots
-		add(dir+"/mod/go.mod", "module example.com/mod\n")
-		add(dir+"/mod/y.go", goSrc)
-		add(dir+"/mod/sub/go.mod", "module example.com/sub\n")
-		add(dir+"/mod/sub/x.go", goSrc)
-		remote = append(remote, dir+"/mod/y.go", dir+"/mod/sub/x.go")
-		if r.Chance(0.5) {
-			add(dir+"/mod/sub/deep/go.mod", "module example.com/deep\n")
-			add(dir+"/mod/sub/deep/w.go", goSrc)
-			remote = append(remote, dir+"/mod/sub/deep/w.go")
-		}
-	} else {
-		add(dir+"/mod/go.mod", "module example.com/mod\n")
-		add(dir+"/mod/y.go", goSrc)
-		remote = append(remote, dir+"/mod/y.go")
-	}
-	if r.Chance(0.4) {
-		add(dir+"/run/main.go", "package main\n\nfunc main() {}\n")
-		remote = append(remote, dir+"/run/main.go")
-	}
-	remote = append(remote, "/nowhere/else/file.go")
-	ex.Analyze = r.Chance(0.3)
-	return ex, remote
+	t, remote := genTreeEnv(r, dir)
+	return &C06Extra{Dir: t.Dir, Files: t.Files, GOROOT: t.GOROOT, GOPATHs: t.GOPATHs, Guess: true, Analyze: r.Chance(0.4)}, remote
 }
 
 func c06Modes(r *core.Rng, n int) []string {
